@@ -487,20 +487,28 @@ def eval_pagerank(ctx, plan, threads_compiled):
             continue
         if p['check'] == 'spec':
             con = r.get('contract') or {}
+            eps_override = None
             if solver == 'bicgstab' and con:
-                ok = con.get('info') == 0 and con['res2'] <= max(con['atol'], 1e-5 * con['b2']) * 1.0001 + 1e-300
-                ctx.count('contract:bicgstab:' + ('met' if ok else 'unmet'))
-                if not ok:
-                    ctx.note('bicgstab contract unmet (info=%s res=%.3g): case checked through the other solvers only' % (
-                        con.get('info'), con.get('res2', float('nan'))))
-                    continue
+                if con.get('info') != 0:
+                    # BiCGSTAB broke down / did not converge.  get_pagerank must not hand the partial iterate to the caller:
+                    # whatever it returns is compared with the exact vector like any other output (no contract to lean on)
+                    ctx.count('bicgstab:info!=0')
+                    sig['info'] = int(con.get('info'))
+                    eps_override = F64_TOL / (1 - a)
+                else:
+                    ok = con['res2'] <= max(con['atol'], 1e-5 * con['b2']) * 1.0001 + 1e-300
+                    ctx.count('contract:bicgstab:' + ('met' if ok else 'unmet'))
+                    if not ok:
+                        ctx.note('bicgstab answered info=0 with a residual above its own stopping rule (res=%.3g): '
+                                 'contract of the external solver unmet, case checked through the other solvers only' % con['res2'])
+                        continue
             if solver == 'lanczos' and con:
                 ok = con['res2'] <= 1e-6 * max(con['v2'], 1e-300) and abs(con['lambda_im']) <= 1e-9
                 ctx.count('contract:eigs:' + ('met' if ok else 'unmet'))
                 if not ok:
                     ctx.note('eigs contract unmet (res=%.3g): case checked through the other solvers only' % con['res2'])
                     continue
-            eps = spec_eps(solver, a, g['n'], job['tol'], con)
+            eps = eps_override if eps_override is not None else spec_eps(solver, a, g['n'], job['tol'], con)
             x = r['scores']
             if any(math.isnan(v) or math.isinf(v) for v in x):
                 ctx.spec_fail(sig, desc, {'impl': x, 'detail': 'non-finite score'})
